@@ -83,6 +83,20 @@ def qr_workload(ctx, maps, g, extra_maps=None):
         text, cs = qrlib.text_of("byte", max(1, cap - 1), rng)
         sets = [mkset(mp, ec, full_capacity(rng, mp, ec, st)) for st in (2, 1, 2)]
         ev.append(dict(op="dmg", text=text, ec=ec, vh=v, mh=(v + ctx.seed) % 8, cs=cs, sets=sets, tag="allversions"))
+    # (vi) damage within capacity AIMED at shortcuts in the Reed-Solomon decoder (gfaim: windows of vanishing syndromes, ghost single errors),
+    #      in one block of small and of multi-block symbols
+    import gfaim
+    for v in [x for x in (1, 2, 7) if x in maps]:
+        mp = maps[v]
+        for ec in range(1, 5):
+            blocks = mp["blocks"][ec - 1]
+            r = (g["total"][v - 1] - g["data"][v - 1][ec - 1]) // len(blocks)
+            if r // 2 < 2:
+                continue
+            text, cs = qrlib.text_of("byte", max(1, g["caps"][v - 1][ec - 1][2] - 2), rng)
+            b = rng.randint(1, len(blocks))
+            sets = [mkset(mp, ec, [(0, b, p + 1, x) for p, x in errs]) for _, errs in gfaim.patterns(1, 256, 0, len(blocks[b - 1]), r, rng)]
+            ev.append(dict(op="dmg", text=text, ec=ec, vh=v, mh=(v + ec) % 8, cs=cs, sets=sets, tag="aimed"))
     # (iii) format information: all subsets of <= 3 of the 15 bits of copy 1 (copy 2 intact / also damaged by <= 3), and of copy 2
     for ec in range(1, 5):
         for v in ([1] if ctx.quick else [1, 2, 7]):
